@@ -751,8 +751,8 @@ class Sum(Binary):
 
     this is used to optimize memory addressing code.
     """
-    def __init__(self, ebpf, left, right):
-        super().__init__(ebpf, left, right, Opcode.ADD, right.value < 0, False)
+    def __init__(self, ebpf, left, right, signed):
+        super().__init__(ebpf, left, right, Opcode.ADD, signed, False)
 
     def __add__(self, value):
         try:
@@ -872,7 +872,8 @@ class Register(Expression):
     def __add__(self, value):
         if self.long and not self.fixed:
             try:
-                return Sum(self.ebpf, self, Constant(self.ebpf, index(value)))
+                return Sum(self.ebpf, self, Constant(self.ebpf, index(value)),
+                           self.signed or index(value) < 0)
             except TypeError:
                 pass
         return super().__add__(value)
@@ -882,7 +883,8 @@ class Register(Expression):
     def __sub__(self, value):
         if self.long and not self.fixed:
             try:
-                return Sum(self.ebpf, self, Constant(self.ebpf, -index(value)))
+                return Sum(self.ebpf, self, Constant(self.ebpf, -index(value)),
+                           self.signed or index(value) < 0)
             except TypeError:
                 pass
         return super().__sub__(value)
